@@ -341,6 +341,17 @@ func pool() []pair {
 		"mapBad":   func() types.Value { return types.NewMap(types.NewString("a"), types.NewString("zz"), types.NewString("b"), types.NewInt(3)) },
 		"mapInts":  func() types.Value { return types.NewMap(types.NewString("k"), types.NewInt(5)) },
 		"mapEmpty": func() types.Value { return types.NewMap() },
+		// values that make a decode FAIL after it has written part of a composite target, and shorter /
+		// sparser values of the same shape that would show leftovers (seeded c17e: scratch cells pooled
+		// per decoder were put back dirty on the error returns)
+		"mapSlBad":  func() types.Value { return types.NewMap(types.NewString("k"), types.NewSlice(types.NewInt(1), types.NewInt(2), types.NewString("x"))) },
+		"mapSl1":    func() types.Value { return types.NewMap(types.NewString("k"), types.NewSlice(types.NewInt(7))) },
+		"mapStBad":  func() types.Value { return types.NewMap(types.NewString("k"), types.NewMap(types.NewString("a"), types.NewInt(1), types.NewString("b"), types.NewSlice())) },
+		"mapStB":    func() types.Value { return types.NewMap(types.NewString("k"), types.NewMap(types.NewString("b"), types.NewString("y"))) },
+		"mapMapBad": func() types.Value { return types.NewMap(types.NewString("k"), types.NewMap(types.NewString("p"), types.NewInt(1), types.NewString("q"), types.NewString("zz"))) },
+		"mapMapR":   func() types.Value { return types.NewMap(types.NewString("k"), types.NewMap(types.NewString("r"), types.NewInt(3))) },
+		"slSlBad":   func() types.Value { return types.NewSlice(types.NewSlice(types.NewInt(1), types.NewInt(2), types.NewString("x"))) },
+		"slSl1":     func() types.Value { return types.NewSlice(types.NewSlice(types.NewInt(7))) },
 	}
 	typs := map[string]reflect.Type{
 		"any": reflect.TypeOf((*any)(nil)), "string": reflect.TypeOf((*string)(nil)), "bytes": reflect.TypeOf((*[]byte)(nil)),
@@ -354,6 +365,9 @@ func pool() []pair {
 		"map[string]any": reflect.TypeOf((*map[string]any)(nil)), "map[string]int": reflect.TypeOf((*map[string]int)(nil)), "map[string][]byte": reflect.TypeOf((*map[string][]byte)(nil)),
 		"struct": reflect.TypeOf((*ab)(nil)), "*int": reflect.TypeOf((**int)(nil)), "*[]byte": reflect.TypeOf((**[]byte)(nil)), "error": reflect.TypeOf((*error)(nil)),
 		"value": reflect.TypeOf((*types.Value)(nil)),
+		"map[string][]int": reflect.TypeOf((*map[string][]int)(nil)), "map[string]struct": reflect.TypeOf((*map[string]ab)(nil)),
+		"map[string]map[string]int": reflect.TypeOf((*map[string]map[string]int)(nil)), "map[string]*struct": reflect.TypeOf((*map[string]*ab)(nil)),
+		"[][]int": reflect.TypeOf((*[][]int)(nil)),
 	}
 	var out []pair
 	for vn, v := range vals {
@@ -475,7 +489,7 @@ func oracle(c *lib.Ctx, r *lib.RNG) []lib.OracleFail {
 }
 
 func Run(c *lib.Ctx) {
-	c.Rule = "correspondence: random decoder tables (≤4 decoders × ≤3 source types × ≤4 values; coherent-by-type, single-taker and arbitrary tables) with random decode sequences run on the real encoding.DecoderGroup and on the Lean model; a case is non-trivial when its trace shows ≥2 different result classes, distinct by table+trace. oracle: every (value,type) pair of a fixed pool decoded cold vs after random warm-up histories vs concurrently on the real registry; distinct by probe+history. cross-process oracle: the harness re-executes itself as fresh child processes which perform the same encodes and decodes through the process-global registries (a struct family with equal tags on differently named fields, untagged and inline fields, plus the fixed pool) in different random orders (every third one: all encodes first); every decode result must be the same in all processes"
+	c.Rule = "correspondence: random decoder tables (≤4 decoders × ≤3 source types × ≤4 values; coherent-by-type, single-taker and arbitrary tables) with random decode sequences run on the real encoding.DecoderGroup and on the Lean model; a case is non-trivial when its trace shows ≥2 different result classes, distinct by table+trace. oracle: every (value,type) pair of a fixed pool decoded cold vs after random warm-up histories vs concurrently on the real registry; distinct by probe+history. cross-process oracle: the harness re-executes itself as fresh child processes which perform the same encodes and decodes through the process-global registries (a struct family with equal tags on differently named fields, untagged and inline fields, plus the fixed pool) in different random orders (every third one: all encodes first); every decode result must be the same in all processes. mutable sources: a fixed pool of sources with a mutable map (top level, in a slice, as a map value, nested) × target types, each decoded twice with the source compared against a snapshot before/after"
 	c.Assumptions = []string{
 		"the target's previous content is not part of the observable result (targets are fresh zero values)",
 		"decoders of the real registry satisfy the Coherent hypothesis of C17.group_pure; this is checked empirically by the cold/warm/concurrent oracle, not proved from the Go source",
@@ -489,6 +503,7 @@ func Run(c *lib.Ctx) {
 		ms = append(ms, asmCorrespondence(c, r.Fork())...)
 	}
 	fails := oracle(c, r.Fork())
+	fails = append(fails, mutableSources(c)...)
 	fails = append(fails, crossProcess(c, r.Fork())...)
 	c.Conclude("DecoderGroup.Decode ≈ Uniflow.Group.decode", ms, fails)
 }
